@@ -1,7 +1,9 @@
 use crate::engine::Property;
 
 pub mod c15;
+pub mod c16;
+pub mod c17;
 
 pub fn all() -> Vec<Property> {
-    vec![c15::property()]
+    vec![c15::property(), c16::property(), c17::property()]
 }
